@@ -90,6 +90,12 @@ def db_case(sh, s, d, case):
             o = objs_[wi]
             c = conns[wi]
             want = dict(start)
+            # a savepoint before or after the change: the commit then stores everything through the savepoint storage and the
+            # object is up to date, not changed, when the vote reports the merge
+            sp_at = rnd.choice([None, None, None, 'before', 'after'])
+            if sp_at == 'before':
+                tms[wi].savepoint()
+                sh.count('writers_with_a_savepoint')
             if which == 'counter':
                 delta = rnd.randrange(1, 50)
                 o.value += delta
@@ -112,6 +118,9 @@ def db_case(sh, s, d, case):
             elif which == 'raiser':
                 o.value = rnd.randrange(100)
                 want['value'] = o.value
+            if sp_at == 'after':
+                tms[wi].savepoint()
+                sh.count('writers_with_a_savepoint')
             first = committed == start and wi == order[0]
             is_conflict = wi != order[0]
             del objs.RESOLVER_LOG[:]
